@@ -2,8 +2,8 @@
 // Functions encoded (real code, real 16.0.0 Zs table): nicknames::find_disallowed_space, trim_spaces
 // (through Nickname::additional_mapping_rule), OpaqueString::additional_mapping_rule,
 // common::is_space_separator / is_non_ascii_space, Codepoints comparisons, binary_search_by.
-use crate::oracle;
-use crate::sup::*;
+use super::oracle;
+use super::sup::*;
 use precis_core::profile::Rules;
 use precis_profiles::{Nickname, OpaqueString};
 
